@@ -1397,13 +1397,41 @@ def p_checkpoint_compares_written(rng, s, b):
                             cands.append((pl, c, i, side))
     if not cands:
         return None
-    pl, c, i, side = rng.choice(cands)
+    # prefer pipelines with several outputs (the compared attribute is then written by one of them, at any position)
+    multi = [x for x in cands if len(x[0]["out"]) >= 2]
+    pl, c, i, side = rng.choice(multi if multi and rng.random() < 0.7 else cands)
     attr = rng.choice(pl["out"])[1]
     d = list(c["deps"][i])
     d[side] = ("act", d[side][1], [attr])
     d[4 - side] = ("lit", "SNull", b.fresh())
     c["deps"][i] = tuple(d)
+    if rng.random() < 0.5:
+        # the written promise gets id 0 (exchanged with whichever promise has it)
+        own = pl["promise"][1]
+        if own != 0:
+            rename_promise_ids(s, {own: 0, 0: own})
     return "a checkpoint compares an attribute that a pipeline writes"
+
+
+def rename_promise_ids(s, mapping):
+    """Consistently renumbers object promises everywhere in the scenario (every reference is a ("promise", id) pair)."""
+    def walk(x):
+        if isinstance(x, (tuple, list)):
+            if len(x) == 2 and x[0] == "promise" and isinstance(x[1], int):
+                return type(x)(("promise", mapping.get(x[1], x[1])))
+            return type(x)(walk(y) for y in x)
+        if isinstance(x, dict):
+            return {k: walk(v) for k, v in x.items()}
+        return x
+    for p in s["promises"]:
+        p["id"] = mapping.get(p["id"], p["id"])
+    for key in list(s):
+        if key != "promises":
+            s[key] = walk(s[key])
+    for p in s["promises"]:
+        for k in list(p):
+            if k != "id":
+                p[k] = walk(p[k])
 
 
 @M.mutator("C09")
